@@ -66,6 +66,8 @@ class Q:
         if self.p3 is not None:
             args["3"] = {"0": list(self.n2 or self.n1)} if any(a[0] == "alloc_bytes" for a in self.p3) else {}
         extra = {"plan": self.plan} if self.plan else {}
+        if getattr(self, "exclude", None):
+            extra["exclude"] = list(self.exclude)
         return {**extra, "name": self.name, "mir": mir, "src": src, "cap": 96, "freelist": self.freelist, "min_seg": 8, "retries": self.retries, "init": "fresh",
                 "progs": progs, "args": args, "steps": [SETUP_STEPS[self.setup]] + self.steps, "kind": self.kind, "switches": self.switches,
                 "first": self.first, "timeout_s": self.timeout, "selftest": self.selftest}
@@ -348,6 +350,7 @@ def run(pid, tier, queries, scratch, logdir, known):
                                                " ".join("%s=%s" % (k, r.get(k)) for k in ("bound_ok", "reach_finish", "reach_interference") if k in r)))
     binary = None
     funcs = set()
+    rerun = []
     for q in queries:
         r = results[q.name]
         out["evaluations"] += max(1, len(r.get("queries", [])))
@@ -443,6 +446,14 @@ def run(pid, tier, queries, scratch, logdir, known):
                                 out["known_lines"].append(line)
                             sample["verdict"] = "known-finding"
                             out["nontrivial"] += 1
+                            role = e.get("exclude_role")
+                            if role and not getattr(q, "exclude", None):
+                                # the listed finding must not hide a different violation of the same family: decide the family again without it
+                                import copy
+                                q2 = copy.copy(q)
+                                q2.exclude = [role]
+                                q2.name = q.name + "__without_" + role
+                                rerun.append(q2)
                         else:
                             os.makedirs(C.REPLAY_DIR, exist_ok=True)
                             rp = os.path.join(C.REPLAY_DIR, "%s-M-%s.json" % (pid, q.name))
@@ -455,7 +466,21 @@ def run(pid, tier, queries, scratch, logdir, known):
                         sample["verdict"] = "non-reproducing"
                         out["inconclusive"].append("%s: the solver's counterexample did not reproduce natively (exit %s): %s" % (q.name, rcode, desc))
         out["samples"].append(sample)
-    out["functions"] = sorted(funcs)
+    out["functions"] = sorted(set(out.get("functions", [])) | funcs)
+    if rerun and not os.environ.get("VERIF_NO_RERUN"):
+        os.environ["VERIF_NO_RERUN"] = "1"
+        try:
+            sub = run(pid, tier, rerun, scratch, logdir, known)
+        finally:
+            os.environ.pop("VERIF_NO_RERUN", None)
+        for k_ in ("evaluations", "nontrivial", "solver_s"):
+            out[k_] += sub[k_]
+        out["samples"] += sub["samples"]
+        out["inconclusive"] += sub["inconclusive"]
+        out["violations"] += sub["violations"]
+        for l_ in sub["known_lines"]:
+            if l_ not in out["known_lines"]:
+                out["known_lines"].append(l_)
     return out
 
 
